@@ -326,3 +326,92 @@ pub proof fn lemma_tp(h: f64, l: f64, c: f64)
 pub open spec fn cci_formula(tp: real, sma: real, mad: real, lit015: real) -> real {
     if mad == 0real { 0real } else { (tp - sma) / (mad * lit015) }
 }
+
+// ---- RateOfChange
+pub open spec fn roc_formula(x: real, prev: real) -> real { (x - prev) / prev * 100real }
+
+// ---- RSI
+pub proof fn alg_convex_nonneg(k: real, x: real, c: real)
+    requires 0real < k <= 1real, x >= 0real, c >= 0real
+    ensures k * x + (1real - k) * c >= 0real
+{ assert(k * x + (1real - k) * c >= 0real) by(nonlinear_arith) requires 0real < k <= 1real, x >= 0real, c >= 0real; }
+pub proof fn alg_pct(u: real, d: real)
+    requires u >= 0real, d >= 0real, u + d != 0real
+    ensures 0real <= 100real * u / (u + d) <= 100real
+{ assert(0real <= 100real * u / (u + d) <= 100real) by(nonlinear_arith) requires u >= 0real, d >= 0real, u + d != 0real; }
+pub proof fn alg_half(u: real)
+    requires u > 0real
+    ensures 100real * u / (u + u) == 50real
+{ assert(100real * u / (u + u) == 50real) by(nonlinear_arith) requires u > 0real; }
+pub open spec fn rsi_formula(u: real, d: real) -> real { 100real * u / (u + d) }
+
+// ---- EfficiencyRatio: length of the polyline start -> s[0] -> s[1] -> ...
+pub open spec fn path_end(start: real, s: Seq<f64>) -> real { if s.len() == 0 { start } else { rv(s.last()) } }
+pub open spec fn path_len(start: real, s: Seq<f64>) -> real decreases s.len() {
+    if s.len() == 0 { 0real } else { path_len(start, s.drop_last()) + rabs(path_end(start, s.drop_last()) - rv(s.last())) }
+}
+pub proof fn lemma_path_concat(start: real, a: Seq<f64>, b: Seq<f64>)
+    ensures path_len(start, a + b) == path_len(start, a) + path_len(path_end(start, a), b),
+            path_end(start, a + b) == path_end(path_end(start, a), b),
+    decreases b.len()
+{
+    if b.len() == 0 { assert(a + b =~= a); } else {
+        assert((a + b).drop_last() =~= a + b.drop_last());
+        assert((a + b).last() == b.last());
+        lemma_path_concat(start, a, b.drop_last());
+    }
+}
+pub proof fn lemma_path_triangle(start: real, s: Seq<f64>)
+    ensures rabs(start - path_end(start, s)) <= path_len(start, s), path_len(start, s) >= 0real
+    decreases s.len()
+{
+    if s.len() > 0 { lemma_path_triangle(start, s.drop_last()); }
+}
+pub open spec fn er_formula(first: real, x: real, vol: real) -> real { rabs(first - x) / vol }
+
+// ---- MoneyFlowIndex: window of signed money flows (positive: typical price rose, negative: fell, 0: unchanged / first bar)
+pub open spec fn rmax0(x: real) -> real { if x >= 0real { x } else { 0real } }
+pub open spec fn seq_pos(s: Seq<f64>) -> real decreases s.len() { if s.len() == 0 { 0real } else { seq_pos(s.drop_last()) + rmax0(rv(s.last())) } }
+pub open spec fn seq_neg(s: Seq<f64>) -> real decreases s.len() { if s.len() == 0 { 0real } else { seq_neg(s.drop_last()) + rmax0(0real - rv(s.last())) } }
+pub proof fn lemma_pos_push(s: Seq<f64>, x: f64)
+    ensures seq_pos(s.push(x)) == seq_pos(s) + rmax0(rv(x)), seq_neg(s.push(x)) == seq_neg(s) + rmax0(0real - rv(x))
+{ assert(s.push(x).drop_last() =~= s); }
+pub proof fn lemma_pos_drop_first(s: Seq<f64>)
+    requires s.len() >= 1
+    ensures seq_pos(s.subrange(1, s.len() as int)) == seq_pos(s) - rmax0(rv(s[0])), seq_neg(s.subrange(1, s.len() as int)) == seq_neg(s) - rmax0(0real - rv(s[0]))
+    decreases s.len()
+{
+    if s.len() == 1 {
+        assert(s.drop_last() =~= Seq::<f64>::empty());
+        assert(s.subrange(1, 1) =~= Seq::<f64>::empty());
+        assert(seq_pos(s.drop_last()) == 0real); assert(seq_neg(s.drop_last()) == 0real); assert(s.last() == s[0]);
+    } else {
+        lemma_pos_drop_first(s.drop_last());
+        assert(s.subrange(1, s.len() as int).drop_last() =~= s.drop_last().subrange(1, s.len() - 1));
+    }
+}
+pub proof fn lemma_pos_nonneg(s: Seq<f64>) ensures seq_pos(s) >= 0real, seq_neg(s) >= 0real decreases s.len()
+{ if s.len() > 0 { lemma_pos_nonneg(s.drop_last()); } }
+// MFI ring: cursor = last written slot; the slot of the first bar is never written and counts as flow 0
+pub open spec fn mfi_ok(d: Seq<f64>, index: int, count: int) -> bool {
+    &&& d.len() >= 1 && 0 <= index < d.len() && 0 <= count <= d.len()
+    &&& (count < d.len() ==> index == count)
+}
+pub open spec fn mfi_win(d: Seq<f64>, index: int, count: int) -> Seq<f64> {
+    let w = next_index(index, d.len() as int);
+    if count < d.len() { d.subrange(1, count + 1) } else { d.subrange(w, d.len() as int) + d.subrange(0, w) }
+}
+pub open spec fn flow(prev_tp: real, tp: real, vol: real) -> real {
+    if tp > prev_tp { tp * vol } else if tp < prev_tp { 0real - tp * vol } else { 0real }
+}
+pub open spec fn mfi_formula(pos: real, neg: real) -> real { pos / (pos + neg) * 100real }
+pub proof fn alg_prod_nonneg(a: real, b: real) requires a >= 0real, b >= 0real ensures a * b >= 0real
+{ assert(a * b >= 0real) by(nonlinear_arith) requires a >= 0real, b >= 0real; }
+pub proof fn lemma_mfi_range(p: real, n: real)
+    requires p >= 0real, n >= 0real, p + n != 0real
+    ensures 0real <= mfi_formula(p, n) <= 100real
+{
+    alg_div_le(p, p + n);
+    let q = p / (p + n);
+    assert(0real <= q * 100real <= 100real) by(nonlinear_arith) requires 0real <= q <= 1real;
+}
